@@ -167,7 +167,7 @@ META["C13"] = dict(
           "correspondence only. HTTP 200 with Stats.MissingPartitions in the body on a cluster leader counts as told (statistics clause of the property)."),
     technique="Coq proof (scan under a step-counted deadline) + exhaustive fault lattice on the real embedded, cluster and web APIs")
 
-META["C13"] = dict(
+META["C20"] = dict(
     text=("Theorems (Props/C20.v): in the wire model of the expression codec decode(encode e) = e for every expression tree, so the decoded "
           "expression has the same text, width and the same Update/Merge/Get behaviour on all inputs; on the codec table translated from "
           "expr/*.go on this run every registered extension type restores every behaviour-relevant field (hand-written decoders rebuild the "
